@@ -134,6 +134,8 @@ def fmt_case(c):
             s.append("ldb %d" % c["ldb"])
         if c.get("ldx"):
             s.append("ldx %d" % c["ldx"])
+        if c.get("stale"):
+            s.append("stale %d" % c["stale"])
         if c.get("xpert"):
             s.append("xpert " + " ".join(float(x).hex() for x in c["xpert"]))
         if c.get("apert"):
